@@ -343,7 +343,7 @@ def run(ctx) -> None:
     from .c19 import r19_4_5
     ctx.guard_as("R07.8", r19_4_5)
     from .c20 import r20_6
-    ctx.guard_as("R07.9", r20_6)  # every verification yields its own header object (no memoised decode results)  # header JSON codec: foreign spellings (raw UTF-8, escapes) decode, own output is compact ASCII  # b64=false compact: which payloads stay attached (no '.' inside a compact token)
+    ctx.guard_as("R07.9", r20_6, "jws")  # every verification yields its own header object (no memoised decode results)  # header JSON codec: foreign spellings (raw UTF-8, escapes) decode, own output is compact ASCII  # b64=false compact: which payloads stay attached (no '.' inside a compact token)
     ctx.note("R07.3 (foreign header spellings verify because the received octets are verified) and R07.4 (R||S width) reuse the C01 / C03 rule implementations and keep their rule ids")
     ctx.note("undecided remainder: agreement with an independent implementation for every key, header and payload needs an oracle implementation - a different technique")
     ctx.assume("RFC 7518 section 3 / RFC 8037 / RFC 8812 parameter table as transcribed in jv/spec/tables.py")
